@@ -171,7 +171,15 @@ func (r *Run) newIter(g *G, v Value, x *ssa.Range) *rangeIter {
 					it.order = append(it.order, e)
 				}
 			}
-			if n := len(it.order); r.permuteMaps > 0 && n >= 2 && n <= r.permuteMaps && n <= 3 {
+			// iteration order is a nondeterministic choice where it can matter to the repository:
+			// in the repository's own loops and in the dependency's graph walks (walkAncestors ...);
+			// the dependency's internal bookkeeping loops and the models keep insertion order
+			permute := false
+			if len(g.stack) > 0 && g.top().fn.Pkg != nil {
+				pp := g.top().fn.Pkg.Pkg.Path()
+				permute = (strings.HasPrefix(pp, modulePath) && !strings.HasSuffix(pp, "/verifrt")) || strings.HasPrefix(g.top().fn.Name(), "walk")
+			}
+			if n := len(it.order); r.permuteMaps > 0 && n >= 2 && n <= r.permuteMaps && n <= 3 && permute {
 				perms := permTable[n]
 				k := r.decide("maporder", len(perms), nil, r.curPos(g))
 				p := perms[k]
@@ -313,7 +321,7 @@ func (r *Run) builtin(g *G, fr *Frame, b *ssa.Builtin, args []Value) (Value, boo
 		}
 		return recv, true
 	}
-	engineFail("builtin %s on %T", b.Name(), args[0])
+	engineFail("builtin %s on %T (%s) in %s", b.Name(), args[0], describe(args[0]), fr.fn)
 	return nil, false
 }
 
